@@ -75,7 +75,19 @@ extern int mpt_stream_sync(MPT_STRUCT(stream) *srm, size_t idlen, const MPT_STRU
 			if (timeout > 0) {
 				timeout = 0;
 			}
-			if ((ret = mpt_queue_recv(&srm->_rd)) < 0) {
+			ret = mpt_queue_recv(&srm->_rd);
+			/* decoder needs space on full input buffer: enlarge while decoding makes progress */
+			if (ret == MPT_ERROR(MissingBuffer)) {
+				size_t curr = (size_t) -1;
+				while (ret == MPT_ERROR(MissingBuffer)
+				    && curr != srm->_rd._state.curr
+				    && (mpt_stream_flags(&srm->_info) & (MPT_STREAMFLAG(ReadBuf) | MPT_STREAMFLAG(ReadMap))) == MPT_STREAMFLAG(ReadBuf)
+				    && mpt_queue_prepare(&srm->_rd.data, 64)) {
+					curr = srm->_rd._state.curr;
+					ret = mpt_queue_recv(&srm->_rd);
+				}
+			}
+			if (ret < 0) {
 				return ret;
 			}
 			/* message incomplete */
